@@ -223,8 +223,9 @@ class EIG(BaseRoutine):
         pfactor = pfactor.T
 
         # --- normalize participation factor ---
+        # each row of `pfactor` now corresponds to one mode
         for item in range(n_state):
-            pfactor[:, item] /= W_abs[item]
+            pfactor[item, :] /= W_abs[item]
         pfactor = np.round(pfactor, 5)
 
         return mu, pfactor, N, W
